@@ -24,13 +24,15 @@ DnaLen(t) == IF t \in NumToks \/ t \in FastaHdrs THEN 0 ELSE SeqLen(t)     \* 0 
 RECURSIVE RunLen(_)          \* number of states on a line, -1 if some symbol is invalid
 RunLen(ts) == IF ts = <<>> THEN 0
               ELSE LET r == RunLen(Tail(ts)) IN IF DnaLen(Head(ts)) = 0 \/ r < 0 THEN -1 ELSE DnaLen(Head(ts)) + r
+RECURSIVE ValidLen(_)        \* option ignore_invalid_chars: invalid symbols are skipped
+ValidLen(ts) == IF ts = <<>> THEN 0 ELSE DnaLen(Head(ts)) + ValidLen(Tail(ts))
 NoRowsL == [l \in {} |-> 0]
 Bump(rows, l, k) == IF l \in DOMAIN rows THEN [rows EXCEPT ![l] = @ + k] ELSE (l :> k) @@ rows
 
 \* ------------------------------------------------------------------ PHYLIP
 PhErr(s) == [s EXCEPT !.outcome = "ParseError"]
-PhStart(lines, inter) ==
-    LET s0 == [ntax |-> 0, nchar |-> 0, rows |-> NoRowsL, order |-> <<>>, cur |-> "", paged |-> FALSE, prow |-> -1,
+PhStart(lines, inter, ign) ==
+    LET s0 == [ign |-> ign, ntax |-> 0, nchar |-> 0, rows |-> NoRowsL, order |-> <<>>, cur |-> "", paged |-> FALSE, prow |-> -1,
                inter |-> inter, outcome |-> "none"]
         d == lines[1]
     IN IF Len(lines) <= 2 THEN PhErr(s0)                                   \* "Expecting at least 2 lines"
@@ -44,7 +46,8 @@ PhTaxon(s, line) ==
     ELSE IF l \notin DOMAIN s.rows /\ Cardinality(DOMAIN s.rows) >= s.ntax THEN PhErr(s)    \* more taxa than declared
     ELSE [s EXCEPT !.rows = Bump(s.rows, l, 0), !.cur = l,
                    !.order = IF l \in DOMAIN s.rows THEN @ ELSE Append(@, l)]
-PhAdd(s, ts) == IF RunLen(ts) < 0 THEN PhErr(s) ELSE [s EXCEPT !.rows = Bump(s.rows, s.cur, RunLen(ts))]
+PhAdd(s, ts) == IF s.ign THEN [s EXCEPT !.rows = Bump(s.rows, s.cur, ValidLen(ts))]
+                ELSE IF RunLen(ts) < 0 THEN PhErr(s) ELSE [s EXCEPT !.rows = Bump(s.rows, s.cur, RunLen(ts))]
 PhLineSeq(s, line) ==
     IF line = <<>> THEN s
     ELSE LET s1 == IF s.cur = "" THEN PhTaxon(s, line) ELSE s
